@@ -40,6 +40,7 @@ type Engine struct {
 	assumedUsed map[string]bool
 	allFns      map[*ssa.Function]bool
 	knownNames  map[string]bool // obligations recorded as known findings for curProp
+	noRetry     bool
 	curProp     string // property being checked (clause-level @Cxx filters)
 	frozenIDs   map[string]bool // printed literal of frozen global object ids
 	pureMemo    map[*ssa.Function]int
